@@ -15,6 +15,19 @@ import H2V.Lemmas.ConnDrainPLoop
   Benign: every stream left in `pending_open` at that point has already been failed (its handles have been woken
   with the error) and the connection is on its way out (`error.is_some() && !has_streams()` ⇒ `go_away_now`).
 -/
+namespace H2V.Lemmas.ConnDrainP
+open H2V H2V.Model H2V.Model.Conn
+
+/-- a state with one request queued: `send_request` on a fresh client (non-vacuity witness of the drain theorems) -/
+def exReq : Streams := ((Conn.init {}).streams.sendRequest false [] true none).1
+
+theorem exReq_pinv : PInv exReq :=
+  ⟨(ConnFlowP.Reach.sendRequest _ _ _ _ (.init ⟨rfl, rfl⟩)).safe, (ConnFlowP.Reach.sendRequest _ _ _ _ (.init ⟨rfl, rfl⟩)).reqOk,
+   (ConnCountsP.Reach.step (.init (.client {} (by decide))) (.sendRequest _ _ _ _ _)).qok (by decide) _ (by decide),
+   (ConnCountsP.Reach.step (.init (.client {} (by decide))) (.sendRequest _ _ _ _ _)).qok (by decide) _ (by decide)⟩
+
+end H2V.Lemmas.ConnDrainP
+
 namespace H2V.Lemmas.ConnDrainP.PO
 open H2V H2V.Model H2V.Model.Conn
 
